@@ -228,8 +228,11 @@ def analyse_measure_like(prog, m, amp, q, sp, KS, KP):
     if len(loops) < 2:
         raise AnalysisBroken('%s: expected an accumulation loop and a collapse loop' % m.short)
     aliases = KP.size_aliases(m.body, amp)
-    sw1 = KP.state_sweep(loops[0], amp, bit_ids, aliases)
-    sw2 = KP.state_sweep(loops[-1], amp, bit_ids, aliases)
+    try:
+        sw1 = KP.state_sweep(loops[0], amp, bit_ids, aliases, m.body)
+        sw2 = KP.state_sweep(loops[-1], amp, bit_ids, aliases, m.body)
+    except KP.BadSweep as ex:
+        raise PartialSweep('%s: %s' % (m.short, ex), loops[-1].get('ln'))
     l1 = sw1
     l2 = sw2
     if l1 is None or l2 is None:
